@@ -1028,10 +1028,20 @@ def sim_leak_scan(ctx):
         for side in 'AB':
             for k in range(4):
                 runs.append((f'{base}/kernel-refuses-newsa-{side}{k}', [['kfail_newsa', side, k]] + scripted(base)))
+    # datagrams and kernel events for which the daemon has no connection (unknown peer address, unknown policy)
+    runs.append(('unknown-peer', scripted('handshake') + [['unknown_peer']]))
     for name, acts in runs:
         with Pair(seed=ctx.rng.getrandbits(32)) as p:
             try:
-                p.run(acts)
+                for a in acts:
+                    if a[0] == 'unknown_peer':
+                        init_req = p.history[0][2]
+                        p.B.datagram('192.168.0.2', '10.9.9.9', init_req)            # IKE_SA_INIT from a stranger
+                        p.B.datagram('192.168.0.2', '10.9.9.9', p.history[2][2])     # protected message from a stranger
+                        p.A.acquire('192.168.0.1', '10.7.7.7', '192.168.0.1', '10.7.7.7', 0, 80, 6, 1)   # no connection
+                        p.A.acquire('192.168.0.1', '192.168.0.2', '192.168.0.1', '192.168.0.2', 0, 80, 6, 999)  # no policy
+                    else:
+                        p.do(a)
                 p.drain()
             except LoopEscape:
                 pass
